@@ -17,13 +17,33 @@ PINS_FILE = os.path.join(VERIF, "harness", "pins.json")
 
 # files a property depends on beyond the anchors listed in properties.jsonl
 EXTRA = {
+    # (the seeded changes of wave 11 were made OUTSIDE the anchor files: these are the files through which a property was
+    #  broken indirectly — declaration-time consistency checks for C01, the facade / alias for C02, the validation facade and
+    #  result object for C03-C05, the representor wherever a message embeds repr(schema), the package wiring for C09 / C18 …)
+    "C01": ["d42/declaration/types/_float_schema.py", "d42/declaration/types/_str_schema.py", "d42/declaration/types/_int_schema.py",
+            "d42/declaration/types/_list_schema.py"],
+    "C02": ["d42/declaration/_schema_facade.py", "d42/declaration/types/_type_alias_schema.py", "d42/declaration/types/_any_schema.py"],
+    "C03": ["d42/validation/__init__.py", "d42/validation/_validation_result.py"],
+    "C04": ["d42/validation/_validator.py", "d42/validation/__init__.py"],
+    "C05": ["d42/validation/__init__.py"],
+    "C06": ["d42/declaration/types/_optional.py", "d42/declaration/types/_list_schema.py", "d42/declaration/types/_dict_schema.py",
+            "d42/declaration/types/_any_schema.py", "d42/declaration/__init__.py"],
+    "C08": ["d42/representation/_representor.py", "d42/validation/_validation_result.py"],
+    "C09": ["d42/generation/__init__.py", "d42/generation/_consts.py", "d42/generation/_random.py"],
     "C10": ["d42/declaration/_props.py", "d42/declaration/types/_bool_schema.py", "d42/declaration/types/_bytes_schema.py",
             "d42/declaration/types/_uuid4_schema.py", "d42/declaration/types/_datetime_schema.py",
-            "d42/declaration/types/_date_schema.py", "d42/declaration/types/_none_schema.py"],
-    "C12": ["d42/substitution/_validator.py"],
-    "C13": ["d42/declaration/types/_optional.py"],
-    "C06": ["d42/declaration/types/_optional.py"],
-    "C18": ["d42/declaration/types/_optional.py", "d42/declaration/_is_ellipsis.py"],
+            "d42/declaration/types/_date_schema.py", "d42/declaration/types/_none_schema.py", "d42/declaration/_schema_facade.py",
+            "d42/declaration/types/_type_alias_schema.py", "d42/representation/_representor.py"],
+    "C11": ["d42/declaration/_props.py", "d42/declaration/errors/__init__.py"],
+    "C12": ["d42/substitution/_validator.py", "d42/representation/_representor.py", "d42/validation/_formatter.py",
+            "d42/validation/_validator.py"],
+    "C13": ["d42/declaration/types/_optional.py", "d42/validation/_validator.py"],
+    "C14": ["d42/declaration/types/_datetime_schema.py", "d42/declaration/types/_date_schema.py", "d42/declaration/types/_uuid4_schema.py",
+            "d42/declaration/types/_float_schema.py", "d42/validation/_validator.py"],
+    "C15": ["d42/__init__.py", "d42/validation/_validator.py"],
+    "C16": ["d42/declaration/types/_any_schema.py"],
+    "C18": ["d42/declaration/types/_optional.py", "d42/declaration/_is_ellipsis.py", "d42/utils/__init__.py"],
+    "C19": ["d42/utils/__init__.py"],
 }
 
 
